@@ -236,4 +236,127 @@ theorem httpUp_hard (cfg : Cfg) (c : Nat) (hc : 0 < c) (data : Bytes) (old : Opt
   | cut k => exact False.elim hx
   | rename => exact False.elim hx
 
+/-! ## downloads -/
+
+/-- what every failed download attempt restores -/
+def DInv (k : Sink) : Prop := k.pos = 0
+
+/-- what a successful download attempt establishes: the sink holds exactly the object -/
+def DGood (obj : Bytes) (k : Sink) : Prop := k.buf = obj ∧ k.pos = obj.length
+
+theorem exceptDown_inv (cfg : Cfg) (hs : DownSound cfg) (k : Sink) : DInv (exceptDown cfg k) := by
+  obtain ⟨hrw, hca, _⟩ := hs
+  simp [exceptDown, hca, hrw, Sink.rewind, DInv]
+
+theorem copyDown_spec (c : Nat) (hc : 0 < c) (rf wf : Option Nat) (obj : Bytes) (k : Sink) (hk : k.pos = 0) (hl : k.buf.length ≤ obj.length) :
+    (copyLoop Sink.write c rf wf (obj.length + 1) 0 ⟨obj, 0⟩ k).1 ≠ .fuel ∧
+    ((copyLoop Sink.write c rf wf (obj.length + 1) 0 ⟨obj, 0⟩ k).1 = .done →
+      DGood obj (copyLoop Sink.write c rf wf (obj.length + 1) 0 ⟨obj, 0⟩ k).2.2) := by
+  refine ⟨copyLoop_ne_fuel _ c hc _ _ _ _ _ _ (by simp), fun hd => ?_⟩
+  have hk0 : k.write [] = k := Sink.write_nil k (by omega)
+  obtain ⟨t, h1, h2⟩ := copyLoop_spec Sink.write Sink.write Sink.write_write c hc rf wf k (obj.length + 1) 0 ⟨obj, 0⟩ []
+  rw [hk0] at h1 h2
+  obtain ⟨e1, _⟩ := h2 hd
+  simp only [List.nil_append, List.drop_zero] at h1 e1
+  rw [h1, e1]
+  exact Sink.write_all k obj hk hl
+
+theorem localDown_spec (cfg : Cfg) (hs : DownSound cfg) (c : Nat) (hc : 0 < c) (obj : Bytes) :
+    AttSpec (localDown cfg c obj) DInv (DGood obj) (fun e => e = .os) (fun _ => True) := by
+  have hs' := hs
+  obtain ⟨hrw, hca, htr⟩ := hs
+  intro f st hinv _
+  unfold localDown
+  by_cases h1 : f = some .pre
+  · rw [if_pos h1]
+    exact Or.inr ⟨.os, rfl, rfl, hinv⟩
+  · rw [if_neg h1]
+    by_cases h2 : f = some .trunc ∧ cfg.downTruncate = true
+    · rw [if_pos h2]
+      exact Or.inr ⟨.os, rfl, rfl, exceptDown_inv cfg hs' st⟩
+    · rw [if_neg h2]
+      simp only [htr, if_true]
+      obtain ⟨hnf, hdone⟩ := copyDown_spec c hc (faultMid f) (faultSink f) obj (st.truncate obj.length) hinv (truncate_length_le st obj.length)
+      generalize copyLoop Sink.write c (faultMid f) (faultSink f) (obj.length + 1) 0 ⟨obj, 0⟩ (st.truncate obj.length) = r at hnf hdone
+      obtain ⟨e, s, k'⟩ := r
+      simp only at hnf hdone
+      cases e with
+      | done => exact Or.inl ⟨rfl, hdone rfl⟩
+      | fault => exact Or.inr ⟨.os, rfl, rfl, exceptDown_inv cfg hs' k'⟩
+      | fuel => exact absurd rfl hnf
+
+theorem localDown_none (cfg : Cfg) (hs : DownSound cfg) (c : Nat) (hc : 0 < c) (obj : Bytes) (st : Sink) (hinv : DInv st) :
+    (localDown cfg c obj none st).err = none := by
+  unfold localDown
+  simp only [reduceCtorEq, if_false, false_and, faultMid, faultSink]
+  have hd := copyLoop_done Sink.write c hc (obj.length + 1) 0 ⟨obj, 0⟩ (if cfg.downTruncate = true then st.truncate obj.length else st) (by simp)
+  generalize copyLoop Sink.write c none none (obj.length + 1) 0 ⟨obj, 0⟩ (if cfg.downTruncate = true then st.truncate obj.length else st) = r at hd
+  obtain ⟨e, s, k'⟩ := r
+  simp only at hd
+  subst hd
+  rfl
+
+def localDownHard : Fault → Prop
+  | .pre | .trunc => True
+  | _ => False
+
+theorem localDown_hard (cfg : Cfg) (hs : DownSound cfg) (c : Nat) (obj : Bytes) (x : Fault) (st : Sink) (hx : localDownHard x) :
+    (localDown cfg c obj (some x) st).err ≠ none := by
+  obtain ⟨_, _, htr⟩ := hs
+  cases x with
+  | pre => simp [localDown]
+  | trunc => simp [localDown, htr]
+  | mktemp => exact False.elim hx
+  | src j => exact False.elim hx
+  | mid j => exact False.elim hx
+  | sink j => exact False.elim hx
+  | cut k => exact False.elim hx
+  | status code ra => exact False.elim hx
+  | lost => exact False.elim hx
+  | rename => exact False.elim hx
+
+theorem httpDown_full (cfg : Cfg) (hs : DownSound cfg) (c : Nat) (hc : 0 < c) (obj : Bytes) (st : Sink) (hinv : DInv st) :
+    DGood obj ((chunkList c (obj.length + 1) obj).foldl Sink.write (if cfg.downTruncate = true then st.truncate obj.length else st)) := by
+  obtain ⟨_, _, htr⟩ := hs
+  simp only [htr, if_true]
+  rw [foldl_write _ _ (by rw [truncate_pos]; unfold DInv at hinv; omega), chunkList_flatten c hc _ _ (by simp)]
+  exact Sink.write_all _ obj hinv (truncate_length_le st obj.length)
+
+theorem httpDown_spec (cfg : Cfg) (hs : DownSound cfg) (c : Nat) (hc : 0 < c) (obj : Bytes) (S : Nat → Prop) :
+    AttSpec (httpDown cfg c obj) DInv (DGood obj) (HttpErr cfg S) (StatusIn S) := by
+  intro f st hinv hall
+  have hgood := httpDown_full cfg hs c hc obj st hinv
+  cases f with
+  | none => exact Or.inl ⟨rfl, hgood⟩
+  | some x =>
+    cases x with
+    | pre => exact Or.inr ⟨.transport, rfl, Or.inl rfl, hinv⟩
+    | status code ra => exact Or.inr ⟨hook cfg code ra, rfl, Or.inr ⟨code, ra, hall _ rfl code ra rfl, rfl⟩, hinv⟩
+    | cut n => exact Or.inr ⟨.transport, rfl, Or.inl rfl, exceptDown_inv cfg hs _⟩
+    | mktemp => exact Or.inl ⟨rfl, hgood⟩
+    | src j => exact Or.inl ⟨rfl, hgood⟩
+    | mid j => exact Or.inl ⟨rfl, hgood⟩
+    | sink j => exact Or.inl ⟨rfl, hgood⟩
+    | trunc => exact Or.inl ⟨rfl, hgood⟩
+    | lost => exact Or.inl ⟨rfl, hgood⟩
+    | rename => exact Or.inl ⟨rfl, hgood⟩
+
+def httpDownHard : Fault → Prop
+  | .pre | .status _ _ | .cut _ => True
+  | _ => False
+
+theorem httpDown_hard (cfg : Cfg) (c : Nat) (obj : Bytes) (x : Fault) (st : Sink) (hx : httpDownHard x) :
+    (httpDown cfg c obj (some x) st).err ≠ none := by
+  cases x with
+  | pre => simp [httpDown]
+  | status code ra => simp [httpDown]
+  | cut n => simp [httpDown]
+  | mktemp => exact False.elim hx
+  | src j => exact False.elim hx
+  | mid j => exact False.elim hx
+  | sink j => exact False.elim hx
+  | trunc => exact False.elim hx
+  | lost => exact False.elim hx
+  | rename => exact False.elim hx
+
 end Replicat.Retry
